@@ -391,6 +391,13 @@ class Effects(object):
                 self.call_writes(c, w)
             if isinstance(a, ast.AnnAssign) and a.value is not None:
                 a = ast.Assign(targets=[a.target], value=a.value)
+            if isinstance(a, ast.Assign) and isinstance(a.value, (ast.List, ast.Tuple, ast.Dict, ast.Set, ast.ListComp, ast.DictComp, ast.SetComp, ast.JoinedStr)):
+                # a display is an object, never None -- known even when its elements are not
+                for t in a.targets:
+                    if isinstance(t, (ast.Name, ast.Attribute)):
+                        tt = tb.term(t)
+                        if not tt.volatile:
+                            gens.append(('none', tt, False))
             if isinstance(a, ast.Assign):
                 rhs = tb.term(a.value)
                 if not rhs.volatile:
